@@ -131,7 +131,8 @@ LinEffect(t, c, nested) ==
          LET Sn == CNext(S, c, now)
          IN /\ S' = Sn
             /\ th' = Inform(setres(CResult(S, c, now), th), TouchedBy(c, S), Sn, now)
-            /\ UNCHANGED <<now, bal>>
+            /\ bal' = (IF c.op = "Clear" THEN {} ELSE bal)
+            /\ UNCHANGED now
 
 Lin(t) ==
   \/ th[t].st = "called" /\ LinEffect(t, th[t].call, FALSE)
